@@ -544,6 +544,19 @@ pub fn run(ctx: &Ctx, rep: &mut Report) {
                     }
                 }
             }
+            // a scaffold gap: one unbroken run of 300 000 N between two stretches with k-mers
+            if k == 31 || k == 7 {
+                idx += 1;
+                if ctx.mine(idx) {
+                    let rec: Vec<u8> = [&base[..k + 3], &vec![b'N'; 300_000][..], &mutated[..]].concat();
+                    rep.evaluations += 1;
+                    rep.nontrivial += 1;
+                    rep.corner("cli_build_run_of_300000_N");
+                    if let Err(e) = cli_case(&[vec![rec]], k, true) {
+                        rep.violate(format!("cli build+nk k={k} run of 300000 N"), format!("a record with a run of 300 000 N: {e}"), json!({"cli_gap": true, "k": k}));
+                    }
+                }
+            }
             for samples in sample_sets {
                 for rc in [true, false] {
                     idx += 1;
